@@ -39,12 +39,17 @@ def plan(tier):
             dict(cfgs=[rec], trees=fsops.small_trees(2), burst_len=2, depth=1, cap=40000, root_delete=True),
             dict(cfgs=[rec], trees=fsops.small_trees(1), burst_len=1, depth=4, cap=40000, root_delete=False),
             dict(cfgs=[flat], trees=fsops.small_trees(2), burst_len=1, depth=1, cap=10000, root_delete=True),
+            dict(cfgs=[fsops.Config(root_form="slash"), fsops.Config(root_form="rel"), fsops.Config(root_type="bytes")],
+                 trees=fsops.small_trees(1), burst_len=1, depth=1, cap=10000, root_delete=True),
         ]
     return [
         dict(cfgs=[rec], trees=fsops.small_trees(4), burst_len=2, depth=2, cap=1_500_000, root_delete=True),
         dict(cfgs=[rec], trees=fsops.small_trees(2), burst_len=3, depth=1, cap=800_000, root_delete=True),
         dict(cfgs=[rec], trees=fsops.small_trees(1), burst_len=1, depth=6, cap=400_000, root_delete=False),
         dict(cfgs=[flat, fsops.Config(full=True)], trees=fsops.small_trees(3), burst_len=2, depth=1, cap=300_000, root_delete=True),
+        dict(cfgs=[fsops.Config(root_form="slash"), fsops.Config(root_form="rel"), fsops.Config(root_type="bytes"),
+                   fsops.Config(root_type="path", root_form="slash")],
+             trees=fsops.small_trees(2), burst_len=2, depth=1, cap=300_000, root_delete=True),
     ]
 
 
@@ -54,6 +59,7 @@ def run(ctx):
                            respect_pacing=False, cap=p["cap"], root_delete=p["root_delete"], label=f"graph{i}",
                            classify=fsops.classify)
     fsops.deviation_search(ctx, CHECKS, tier=ctx.tier, respect_pacing=False, root_delete=True, outside_ops=True)
+    fsops.vanish_search(ctx, CHECKS, tier=ctx.tier)
     # API part: calls racing the real emitters (code-level scheduling points in inotify.py / inotify_buffer.py / inotify_c.py)
     ctx.instrumented = inoapi.instrument()
     hs = [ApiH(f"c07 {n}", p) for n, p in inoapi.programs(ctx.tier)]
